@@ -1,2 +1,6 @@
 import Glas.Props.C14
-#print axioms Glas.Props.C14.col_to_byte
+#print axioms Glas.Props.C14.lineCol_eq_client
+#print axioms Glas.Props.C14.roundtrip
+#print axioms Glas.Props.C14.strict_mono
+#print axioms Glas.Props.C14.client_resolves
+#print axioms Glas.Props.C14.toRange_selects
